@@ -749,7 +749,7 @@ func (s *scanner) readInlineImage() (Operator, error) {
 	} else {
 		// no Length key: read until we find [\r\n]EI pattern
 		var prevByte byte
-		for len(imageData) < maxInlineImageBytes {
+		for {
 			// check for EI pattern: previous byte is \r or \n, followed by "EI" + delimiter
 			if (prevByte == '\r' || prevByte == '\n') && s.checkEI() {
 				// remove the trailing newline from image data
@@ -759,17 +759,20 @@ func (s *scanner) readInlineImage() (Operator, error) {
 				break
 			}
 
+			// imageData holds the data and the EOL before EI, so that up
+			// to maxInlineImageBytes of data are accepted (the same limit
+			// as with a Length key)
+			if len(imageData) > maxInlineImageBytes {
+				// no valid EI found within limit
+				return Operator{}, parseError{}
+			}
+
 			b, err := s.ReadByte()
 			if err != nil {
 				return Operator{}, err
 			}
 			imageData = append(imageData, b)
 			prevByte = b
-		}
-
-		if len(imageData) >= maxInlineImageBytes {
-			// no valid EI found within limit
-			return Operator{}, parseError{}
 		}
 	}
 
